@@ -279,6 +279,11 @@ func runCheck(id, tier, repoDir, verifDir string, debug, claim, keep bool) int {
 				continue
 			}
 			checked = append(checked, ob)
+			for _, f := range findings {
+				if f.Kind == "finding" && f.Prop == id && f.Obl == ob.Name {
+					ob.Known = true
+				}
+			}
 			jobs = append(jobs, job{r.VC, ob})
 		}
 		for _, ob := range r.Covers {
@@ -327,7 +332,7 @@ func runCheck(id, tier, repoDir, verifDir string, debug, claim, keep bool) int {
 		report(ob, nil, "the function this proof is about is gone (renamed or deleted); the property cannot be shown for it")
 	}
 	nOb, nDis := 0, 0
-	var recs []oblRecord
+	var recs, knownRecs []oblRecord
 	var solverTime float64
 	backends := map[string]int{}
 	for _, r := range results {
@@ -340,8 +345,14 @@ func runCheck(id, tier, repoDir, verifDir string, debug, claim, keep bool) int {
 			if ob.Status == "" {
 				continue
 			}
-			nOb++
 			solverTime += ob.TimeS
+			if ob.Known && ob.Status != "unsat" {
+				// a recorded finding: reported, not counted among the proof obligations
+				knownRecs = append(knownRecs, oblRecord{ob.Name, ob.Kind, ob.Status, ob.Solver, round3(ob.TimeS), ob.Desc, ob.Pos})
+				report(ob, r.VC, "")
+				continue
+			}
+			nOb++
 			recs = append(recs, oblRecord{ob.Name, ob.Kind, ob.Status, ob.Solver, round3(ob.TimeS), ob.Desc, ob.Pos})
 			if ob.Status == "unsat" {
 				nDis++
@@ -405,7 +416,7 @@ func runCheck(id, tier, repoDir, verifDir string, debug, claim, keep bool) int {
 	}
 
 	// evidence
-	writeEvidence(w, &pc, id, tier, seed, results, recs, nOb, nDis, unclaimed, violations, backends, solverTime, assumedContracts, time.Since(t0).Seconds())
+	writeEvidence(w, &pc, id, tier, seed, results, recs, knownRecs, nOb, nDis, unclaimed, violations, backends, solverTime, assumedContracts, time.Since(t0).Seconds())
 	fmt.Printf("%s: %d obligations, %d discharged, %d violations, %d known findings, %.1fs (solver %.1fs)\n", id, nOb, nDis, violations, len(knownHit), time.Since(t0).Seconds(), solverTime)
 	if debug {
 		for _, r := range results {
